@@ -25,6 +25,10 @@ type DB struct {
 
 var ErrInvalidMagic = errors.New("invalid magic")
 
+// maxHeaderSize bounds the variable-length part of the file header (fixed fields plus
+// metadata, which is at most 255 key-value pairs of 255+255 bytes).
+const maxHeaderSize = 1 << 20
+
 // Open returns a handle to access a compactindex.
 //
 // The provided stream must start with the Magic byte sequence.
@@ -43,6 +47,10 @@ func Open(stream io.ReaderAt) (*DB, error) {
 		return nil, ErrInvalidMagic
 	}
 	size := binary.LittleEndian.Uint32(magicAndSize[8:])
+	if size > maxHeaderSize {
+		// a corrupted length field must not make us allocate gigabytes
+		return nil, fmt.Errorf("header size %d exceeds the maximum of %d", size, maxHeaderSize)
+	}
 	fileHeaderBuf := make([]byte, 8+4+size)
 	n, readErr = stream.ReadAt(fileHeaderBuf, 0)
 	if n < len(fileHeaderBuf) {
@@ -117,6 +125,10 @@ func (db *DB) GetBucket(i uint) (*Bucket, error) {
 	readErr := bucket.BucketHeader.readFrom(db.Stream, i)
 	if readErr != nil {
 		return nil, readErr
+	}
+	if bucket.HashLen != HashSize {
+		// entries are decoded with this length: a corrupted value would slice out of bounds
+		return nil, fmt.Errorf("bucket %d: unsupported hash length %d", i, bucket.HashLen)
 	}
 	bucket.Entries = io.NewSectionReader(db.Stream, int64(bucket.FileOffset), int64(bucket.NumEntries)*int64(bucket.Stride))
 	if db.prefetch {
